@@ -234,7 +234,7 @@ class C14(common.Check):
                   "security context": "stub (StubCtx) where auth is on", "transport": "simulated (SimSocket / SimTransport on SimLoop)"}
     assumptions = ["TCP delivers bytes in order; segment boundaries and stream end are arbitrary",
                    "a sync read that can never complete is reported as 'blocks' (violation only after EOF/RST, never for a silent open peer)"]
-    required_fired = ("seg", "seg_in_header", "eof", "rst", "stall", "pairs")
+    required_fired = ("seg", "seg_in_header", "eof", "rst", "stall", "pairs", "gap", "clock_jump")
 
     def exhaustive(self, tier):
         return True
@@ -285,6 +285,14 @@ class C14(common.Check):
                 for r in range(nr):
                     out.append([si, fl, "rand", common_seed(seed, si, r), r % 3])
                 out.append([si, fl, "bytewise", 0, 0])
+                # time: the second segment arrives after a pause (retransmission, a slow peer), or the wall clock steps while the
+                # reply is pending (NTP correction, VM resume); neither changes what a reliable byte stream delivers
+                for a in sorted({1, 9, 16, 17, max(1, n // 2), n - 1}):
+                    if 0 < a < n:
+                        for k, secs in enumerate((0.05, 0.5, 2.0, 4.0)):
+                            out.append([si, fl, "gap", a, k])
+                        for k in range(4):
+                            out.append([si, fl, "clockjump", a, k])
         # two async connections in flight at once (different replies, cut at / around the header boundary)
         k = 0
         for si in range(len(SCENARIOS)):
@@ -309,6 +317,10 @@ class C14(common.Check):
             d = {"mode": "cuts", "cuts": {str(tm): list(range(1, n))}}
         elif mode == "rand":
             d = {"mode": "rand", "seed": a, "bias": ("small", "header", "geo")[b]}
+        elif mode == "gap":
+            d = {"mode": "cuts", "cuts": {str(tm): [a]}, "gaps": [[tm, 1, (0.05, 0.5, 2.0, 4.0)[b]]] + ([[tm, 0, 0.2]] if b % 2 else [])}
+        elif mode == "clockjump":
+            d = {"mode": "cuts", "cuts": {str(tm): [a]}, "clock_jumps": [[tm, 1, (61.0, 3600.0, -3600.0, 86400.0 * 400)[b]]] + ([[tm, 0, 75.0]] if b == 0 else [])}
         elif mode in ("eof", "rst", "stall"):
             d = {mode + "_at": [tm, a]}
             if b:
@@ -320,10 +332,12 @@ class C14(common.Check):
         if target2 is not None and target2 != target:
             raise common.HarnessError("peer reply differs between baseline and run (harness nondeterminism)")
         probes = {}
-        if mode in ("cuts", "bytewise", "rand"):
+        if mode in ("gap", "clockjump"):
+            probes["pause_between_segments" if mode == "gap" else "wall_clock_step_while_pending"] = 1
+        if mode in ("cuts", "bytewise", "rand", "gap", "clockjump"):
             if not out.same_as(base):
                 kind, frame = drive.exc_sig(out)
-                cond = "header-split" if world.stats.get("seg_in_header") else "body-split"
+                cond = ("pause-" if mode == "gap" else "clock-step-" if mode == "clockjump" else "") + ("header-split" if world.stats.get("seg_in_header") else "body-split")
                 viol = common.violation("C14", "reassembly", fl, kind, frame, cond,
                                         f"scenario={sc} delivery={d}: one-piece outcome {base.brief()} but got {out.brief()} {out.exc!r}")
         elif mode in ("eof", "rst"):
@@ -335,7 +349,7 @@ class C14(common.Check):
                                         f"scenario={sc} {mode} after {a}/{n} bytes of the reply: outcome {out.brief()} {out.exc!r}")
         else:  # stall: blocking is legitimate, never flagged
             probes["stall_" + out.brief().split(":")[0]] = 1
-        fired = {k: v for k, v in world.stats.items() if k in ("seg", "seg_in_header", "eof", "rst", "stall", "reads_after_eof")}
+        fired = {k: v for k, v in world.stats.items() if k in ("seg", "seg_in_header", "eof", "rst", "stall", "reads_after_eof", "gap", "clock_jump")}
         return {"viol": viol, "digest": world.digest() + out.brief(), "key": common.key_hash(case), "fired": fired,
                 "probes": probes, "vtime_ns": world.stats.get("vtime_ns", 0)}
 
